@@ -2580,5 +2580,140 @@ theorem tryPreemptionLate_abandoned_restores (w : World) (hw : WF w) (hk : KeysU
   rw [key]
   exact preemptingOf_releaseLate w late i
 
+/-! ### the marking loop of quota preemption: a victim released in the meantime is skipped, not booked -/
+
+theorem quotaMarkLoop_spec (allocs0 : List PAlloc) : ∀ (todo done : List String),
+    quotaMarkLoop (markMap done true allocs0) todo = markMap (done ++ quotaMarked allocs0 todo) true allocs0 := by
+  intro todo
+  induction todo with
+  | nil => intro done; unfold quotaMarkLoop quotaMarked; rw [List.filter_nil, List.append_nil]
+  | cons k t ih =>
+    intro done
+    unfold quotaMarkLoop
+    rw [isReleased_markMap]
+    cases hr : isReleased allocs0 k with
+    | true =>
+      rw [if_pos rfl, ih done]
+      unfold quotaMarked
+      rw [List.filter_cons]
+      simp only [hr, Bool.not_true, Bool.false_eq_true, if_false]
+    | false =>
+      rw [if_neg Bool.false_ne_true, setPreempted_markMap, ih (done ++ [k])]
+      unfold quotaMarked
+      rw [List.filter_cons]
+      simp only [hr, Bool.not_false, if_true, List.append_assoc, List.singleton_append]
+
+/-- the allocations after the loop: exactly the selected victims that were not released are marked -/
+theorem quotaPreemptLate_eq (w : World) (late sel : List String) :
+    quotaPreemptLate w late sel = markMap (quotaMarked (releaseLate late w.allocs) sel) true (releaseLate late w.allocs) := by
+  unfold quotaPreemptLate
+  have := quotaMarkLoop_spec (releaseLate late w.allocs) sel []
+  rw [markMap_nil, List.nil_append] at this
+  exact this
+
+theorem quotaMarked_mem {allocs : List PAlloc} {sel : List String} {k : String} (h : k ∈ quotaMarked allocs sel) :
+    k ∈ sel ∧ isReleased allocs k = false := by
+  unfold quotaMarked at h
+  obtain ⟨h1, h2⟩ := List.mem_filter.mp h
+  refine ⟨h1, ?_⟩
+  cases hr : isReleased allocs k with
+  | false => rfl
+  | true => rw [hr] at h2; cases h2
+
+theorem pre_foldl_addX_getD (l : List Res) (hr : ∀ r ∈ l, wf r = true) (acc : Res) (k : String) :
+    (l.foldl addX acc).getD k = acc.getD k + (l.map (fun r => r.getD k)).sum := by
+  induction l generalizing acc with
+  | nil => simp
+  | cons a t ih =>
+    rw [List.foldl_cons, ih (fun x hx => hr x (List.mem_cons_of_mem _ hx)), addX_getD _ _ (hr a List.mem_cons_self),
+      List.map_cons, List.sum_cons]
+    omega
+
+theorem pre_sumRes_map_getD (l : List PAlloc) (hr : ∀ a ∈ l, wf a.res = true) (k : String) :
+    (sumRes (l.map (·.res))).getD k = (l.map (fun a => a.res.getD k)).sum := by
+  unfold sumRes
+  rw [pre_foldl_addX_getD _ (by intro r hr'; obtain ⟨x, hx, rfl⟩ := List.mem_map.mp hr'; exact hr x hx), List.map_map]
+  have : Res.getD ([] : Res) k = 0 := rfl
+  rw [this, Int.zero_add]; rfl
+
+/-- sum over a filter by a disjunction of two conditions that exclude each other on the list -/
+theorem sum_filter_or (f : PAlloc → Int) (p q : PAlloc → Bool) : ∀ (l : List PAlloc), (∀ a ∈ l, ¬ (p a = true ∧ q a = true)) →
+    ((l.filter (fun a => p a || q a)).map f).sum = ((l.filter p).map f).sum + ((l.filter q).map f).sum := by
+  intro l
+  induction l with
+  | nil => intro _; rfl
+  | cons a t ih =>
+    intro h
+    have ht := ih (fun x hx => h x (List.mem_cons_of_mem _ hx))
+    have ha := h a List.mem_cons_self
+    simp only [List.filter_cons]
+    cases hp : p a <;> cases hq : q a
+    · simp only [Bool.or_self, Bool.false_eq_true, if_false]; exact ht
+    · simp only [Bool.or_true, Bool.false_eq_true, if_true, if_false, List.map_cons, List.sum_cons, ht]; omega
+    · simp only [Bool.or_false, Bool.false_eq_true, if_true, if_false, List.map_cons, List.sum_cons, ht]; omega
+    · exact absurd ⟨hp, hq⟩ ha
+
+
+theorem rl_fields (late : List String) (a : PAlloc) :
+    (if (late.contains a.key && !a.preempted) = true then { a with released := true } else a).key = a.key ∧
+    (if (late.contains a.key && !a.preempted) = true then { a with released := true } else a).preempted = a.preempted ∧
+    (if (late.contains a.key && !a.preempted) = true then { a with released := true } else a).q = a.q ∧
+    (if (late.contains a.key && !a.preempted) = true then { a with released := true } else a).res = a.res := by
+  cases (late.contains a.key && !a.preempted) <;> exact ⟨rfl, rfl, rfl, rfl⟩
+
+theorem mk_fields (marked : List String) (a : PAlloc) :
+    (if marked.contains a.key then a.mark true else a).preempted = (a.preempted || marked.contains a.key) ∧
+    (if marked.contains a.key then a.mark true else a).q = a.q ∧
+    (if marked.contains a.key then a.mark true else a).res = a.res := by
+  cases marked.contains a.key
+  · exact ⟨(Bool.or_false _).symm, rfl, rfl⟩
+  · exact ⟨(Bool.or_true _).symm, rfl, rfl⟩
+
+/-- preempting resource of queue `i` after marking the allocations named by `marked` on top of late releases, per
+    resource type: what it was before plus the sizes of the newly marked allocations of the queue's subtree -/
+theorem preemptingOf_markMap_getD (w : World) (hres : ∀ a ∈ w.allocs, wf a.res = true) (late marked : List String)
+    (i : Nat) (k : String) :
+    (preemptingOf { w with allocs := markMap marked true (releaseLate late w.allocs) } i).getD k =
+      (preemptingOf w i).getD k + (sumRes ((newlyMarked w marked i).map (·.res))).getD k := by
+  unfold preemptingOf newlyMarked
+  show (sumRes (((markMap marked true (releaseLate late w.allocs)).filter (fun a => a.preempted && inSubtree w i a.q)).map (·.res))).getD k = _
+  unfold markMap releaseLate
+  rw [List.map_map, List.filter_map, List.map_map]
+  have h1 : ((fun a : PAlloc => a.preempted && inSubtree w i a.q) ∘ ((fun a : PAlloc => if marked.contains a.key then a.mark true else a) ∘
+      fun a => if (late.contains a.key && !a.preempted) = true then { a with released := true } else a)) =
+      (fun a : PAlloc => (a.preempted && inSubtree w i a.q) || ((marked.contains a.key && !a.preempted) && inSubtree w i a.q)) := by
+    funext a
+    simp only [Function.comp]
+    obtain ⟨e1, e2, e3, _⟩ := rl_fields late a
+    obtain ⟨f1, f2, _⟩ := mk_fields marked (if (late.contains a.key && !a.preempted) = true then { a with released := true } else a)
+    rw [f1, f2, e1, e2, e3]
+    cases a.preempted <;> cases marked.contains a.key <;> cases inSubtree w i a.q <;> rfl
+  have h2 : ((fun a : PAlloc => a.res) ∘ ((fun a : PAlloc => if marked.contains a.key then a.mark true else a) ∘
+      fun a => if (late.contains a.key && !a.preempted) = true then { a with released := true } else a)) =
+      (fun a : PAlloc => a.res) := by
+    funext a
+    simp only [Function.comp]
+    obtain ⟨_, _, _, e4⟩ := rl_fields late a
+    obtain ⟨_, _, f3⟩ := mk_fields marked (if (late.contains a.key && !a.preempted) = true then { a with released := true } else a)
+    rw [f3, e4]
+  rw [h1, h2]
+  rw [pre_sumRes_map_getD _ (fun a ha => hres a (List.mem_filter.mp ha).1),
+    pre_sumRes_map_getD _ (fun a ha => hres a (List.mem_filter.mp ha).1),
+    pre_sumRes_map_getD _ (fun a ha => hres a (List.mem_filter.mp ha).1)]
+  apply sum_filter_or
+  intro a _ ⟨hp, hq⟩
+  simp only [Bool.and_eq_true, Bool.not_eq_true'] at hp hq
+  rw [hp.1] at hq; exact absurd hq.1.2 (by decide)
+
+/-- quota preemption with late releases: per queue and resource type the preempting resource grows by exactly the
+    victims the operation marked; a marked victim was selected and not released when it was marked -/
+theorem quotaPreemptLate_preempting (w : World) (hres : ∀ a ∈ w.allocs, wf a.res = true) (late sel : List String)
+    (i : Nat) (k : String) :
+    (preemptingOf { w with allocs := quotaPreemptLate w late sel } i).getD k =
+      (preemptingOf w i).getD k +
+      (sumRes ((newlyMarked w (quotaMarked (releaseLate late w.allocs) sel) i).map (·.res))).getD k := by
+  rw [quotaPreemptLate_eq]
+  exact preemptingOf_markMap_getD w hres late _ i k
+
 end Pre
 end Yk
